@@ -744,6 +744,14 @@ func (r *Run) rangeIter(x Value, t types.Type) iterator {
 // ---------------- type assertion
 
 func (r *Run) implements(dyn types.Type, iface *types.Interface, v Value) bool {
+	if dyn == flateReaderType {
+		for i := 0; i < iface.NumMethods(); i++ {
+			if n := iface.Method(i).Name(); n != "Read" && n != "Close" {
+				return false
+			}
+		}
+		return true
+	}
 	if dyn == errObjType || dyn == runtimeErrType {
 		for i := 0; i < iface.NumMethods(); i++ {
 			switch iface.Method(i).Name() {
